@@ -258,6 +258,9 @@ func (e *Engine) applyContract(st *State, fr *Frame, fn *ssa.Function, c *Contra
 	// type invariants of arguments are obligations
 	for i, a := range args {
 		for _, inv := range e.invariantsOfValue(st, a, fn.Params[i].Type(), fn.Params[i].Name()) {
+			if c.Weak[fn.Params[i].Name()] && inv.top {
+				continue
+			}
 			e.addObligation(st, fr, "callinv", rel+":"+inv.label, inv.t, "type invariant of argument "+inv.label)
 		}
 	}
@@ -369,13 +372,60 @@ func (e *Engine) applyPost(st, pre *State, fr *Frame, fn *ssa.Function, c *Contr
 		e.assumeEnsures(st, env, en.Expr, results, names)
 	}
 	// type invariants of havoced objects and fresh results
+	// the callee re-establishes the invariants of the typed objects it was handed (objects at or below
+	// an argument pointer) -- not those of enclosing objects it cannot see.
+	type root struct {
+		reg  *Region
+		path []int
+	}
+	var roots []root
+	weakRoot := map[string]bool{}
+	for i, a := range args {
+		if p, ok := a.(*PtrVal); ok && !p.null && !p.reg.dyn {
+			r, pp, _ := e.resolveWindow(p.reg, p.path)
+			roots = append(roots, root{r, pp})
+			if i < len(fn.Params) && c.Weak[fn.Params[i].Name()] {
+				weakRoot[pathKey(r.id, pp)] = true
+			}
+		}
+	}
 	for _, cr := range dedupeObjects(e, havoced) {
+		visible := false
+		for _, rt := range roots {
+			if rt.reg == cr.reg && len(rt.path) <= len(cr.path) {
+				ok := true
+				for i := range rt.path {
+					if rt.path[i] != cr.path[i] {
+						ok = false
+					}
+				}
+				if ok {
+					visible = true
+				}
+			}
+		}
+		if !visible {
+			continue
+		}
+		if weakRoot[pathKey(cr.reg.id, cr.path)] {
+			continue
+		}
 		for _, inv := range e.invariantsAt(st, cr.reg, cr.path, cr.typ, cr.reg.name+pathName(cr.reg.typ, cr.path)) {
-			st.assume(inv.t)
+			if inv.top {
+				st.assume(inv.t)
+			}
 		}
 	}
 	for i, r := range env.results {
+		isWeak := false
+		if p, ok := r.(*PtrVal); ok && !p.null && !p.reg.dyn {
+			rr, pp, _ := e.resolveWindow(p.reg, p.path)
+			isWeak = weakRoot[pathKey(rr.id, pp)]
+		}
 		for _, inv := range e.invariantsOfValue(st, r, rs.At(i).Type(), fmt.Sprintf("result%d", i)) {
+			if isWeak && inv.top {
+				continue
+			}
 			st.assume(inv.t)
 		}
 	}
@@ -551,7 +601,7 @@ func (e *Engine) assumeEnsures(st *State, env *SpecEnv, x ast.Expr, results []Va
 				}
 				rt = substitute(rt, st.subst)
 				if definable(lt) && !occurs(lt, rt) {
-					st.subst[lt.Key()] = rt
+					st.addSubst(lt, rt)
 					return
 				}
 				st.assume(mkEq(lt, rt))
@@ -596,7 +646,16 @@ func (e *Engine) assumeEnsures(st *State, env *SpecEnv, x ast.Expr, results []Va
 			}
 		}
 	}
-	st.assume(env.boolTerm(x))
+	t := env.boolTerm(x)
+	if t.Op == "var" && definable(t) {
+		st.addSubst(t, tTrue)
+		return
+	}
+	if t.Op == "not" && t.Args[0].Op == "var" && definable(t.Args[0]) {
+		st.addSubst(t.Args[0], tFalse)
+		return
+	}
+	st.assume(t)
 }
 
 func resultIndex(name string, names []string) int {
@@ -650,6 +709,7 @@ func occurs(a, in *Term) bool {
 type invInst struct {
 	label string
 	t     *Term
+	top   bool // invariant of the root object itself (not of a nested object)
 }
 
 func (e *Engine) typeSpecOf(t types.Type) *TypeSpec {
@@ -663,12 +723,13 @@ func (e *Engine) typeSpecOf(t types.Type) *TypeSpec {
 // invariantsAt instantiates the invariants of every typed sub-object at/under (reg,path).
 func (e *Engine) invariantsAt(st *State, reg *Region, path []int, t types.Type, label string) []invInst {
 	var out []invInst
+	root := path
 	var rec func(path []int, t types.Type, label string)
 	rec = func(path []int, t types.Type, label string) {
 		if ts := e.typeSpecOf(t); ts != nil {
 			env := &SpecEnv{e: e, st: st, vars: map[string]Value{"self": &RefVal{reg: reg, path: path, typ: t}}, fnName: "inv " + ts.Name}
 			for _, c := range ts.Inv {
-				out = append(out, invInst{label, env.boolTerm(c.Expr)})
+				out = append(out, invInst{label, env.boolTerm(c.Expr), len(path) == len(root)})
 			}
 		}
 		switch u := underlying(t).(type) {
